@@ -439,6 +439,18 @@ example : Respects (exEnv 3) ∧ Respects (exEnv 4) ∧ Indep (exEnv 3) (exEnv 4
 /-- …while the view is NOT independent of the renderer registration it reads (only the phases order them) -/
 example : indepB (exEnv 0) (exEnv 3) = false := by decide
 
+/-- cache busters (`add_cache_buster`, no discriminator): an entry keyed by the statement's (spec, explicit).  Two
+busters on different keys — a general spec and a more specific one, or the same spec explicit / path-based — have
+independent footprints, so by `swap_independent` their statements may be declared in either order; what an asset gets
+is the most specific matching entry, a function of the resulting SET.  (Seeded change C08-9 made the real insertion
+order-dependent for nested path-based specs; the harness shows `static_url` of assets under each spec.) -/
+example :
+    indepB (herbrand 1 (instReads .cacheBuster none [⟨.cacheBusters, 1⟩]) (instWrites .cacheBuster none [⟨.cacheBusters, 1⟩]))
+           (herbrand 2 (instReads .cacheBuster none [⟨.cacheBusters, 2⟩]) (instWrites .cacheBuster none [⟨.cacheBusters, 2⟩])) = true ∧
+    indepB (herbrand 1 (instReads .cacheBuster none [⟨.cacheBusters, 1⟩]) (instWrites .cacheBuster none [⟨.cacheBusters, 1⟩]))
+           (herbrand 2 (instReads .cacheBuster none [⟨.cacheBusters, 1⟩]) (instWrites .cacheBuster none [⟨.cacheBusters, 1⟩])) = false := by
+  decide
+
 end Examples
 
 end Pyr.ConfigOrder
